@@ -2,7 +2,7 @@
 """seedsweep.py [ids...]: run every seeded change under /verif/seeded against the quick check of its own property (plus the checks named in
 EXTRA) and write seeded/RESULTS.json. /repo must be clean; each patch is applied, checked and reverted."""
 import json, os, subprocess, sys, time
-EXTRA = {"C01-m5": ["C02"], "C01-m6": ["C02"], "C01-m4": ["C03"], "C02-m4": ["C03"], "C10-m3": ["C09"], "C03-m1": ["C01"], "C10-m2": ["C11"], "C05-m2": ["C01"], "C09-m1": ["C12"], "C10-m1": ["C09"]}
+EXTRA = {"C01-m8": ["C03"], "C13-m7": ["C09"], "C01-m5": ["C02"], "C01-m6": ["C02"], "C01-m4": ["C03"], "C02-m4": ["C03"], "C10-m3": ["C09"], "C03-m1": ["C01"], "C10-m2": ["C11"], "C05-m2": ["C01"], "C09-m1": ["C12"], "C10-m1": ["C09"]}
 root = "/verif/seeded"
 ids = sys.argv[1:] or sorted(d for d in os.listdir(root) if os.path.isdir(os.path.join(root, d)))
 resp = os.path.join(root, "RESULTS.json")
